@@ -19,21 +19,23 @@ pub fn read_files_in_folder(
 ) -> LocationFreeDiagnosticResult<Vec<(RelativePathToSourceFile, String)>> {
     read_dir_recursive(folder)?
         .into_iter()
-        .filter(|p| {
-            let extension = p.extension().and_then(|x| x.to_str());
-
-            matches!(
-                extension,
-                Some("ts") | Some("tsx") | Some("js") | Some("jsx")
-            )
-        })
-        .filter(|p| {
-            !p.to_str()
-                .expect("Expected path to be stringable")
-                .contains("__isograph")
-        })
+        .filter(|p| is_isograph_source_file(p))
         .map(|path| read_file(path, current_working_directory))
         .collect()
+}
+
+/// Whether a file may contain iso literals: it has a JavaScript/TypeScript extension and is not
+/// inside an `__isograph` folder. Batch compilation and watch mode must agree on this.
+pub fn is_isograph_source_file(path: &Path) -> bool {
+    let extension = path.extension().and_then(|x| x.to_str());
+
+    matches!(
+        extension,
+        Some("ts") | Some("tsx") | Some("js") | Some("jsx")
+    ) && !path
+        .to_str()
+        .expect("Expected path to be stringable")
+        .contains(ISOGRAPH_FOLDER)
 }
 
 pub fn read_file(
